@@ -1,8 +1,9 @@
 import Huginn.Drv.C05
+import Huginn.Drv.C09
 import Huginn.Drv.C14
 namespace Huginn.Drv
 
 def allHandlers : List (String × (String → P Verdict)) :=
-  Huginn.Drv.C05.handlers ++ Huginn.Drv.C14.handlers
+  Huginn.Drv.C05.handlers ++ Huginn.Drv.C09.handlers ++ Huginn.Drv.C14.handlers
 
 end Huginn.Drv
